@@ -214,6 +214,22 @@ def systematic_cases():
                 for errh in ([], [(404, ('c', ('t', 'custom')))], [(405, ('ex',))], [(404, ('bd',))]):
                     cases.append((dict(before=list(before), after=list(after), errh=list(errh)),
                                   dict(id=1, method=method, fw=False, path_ok=True, tail='', query='', route=route)))
+    # the last-resort page of wsgi(): every way the generator has to get there (a response header that cannot be
+    # encoded, a custom error handler that raises - for the handler's own failure, for 404 and for 405) x request
+    # paths whose text is ASCII, needs HTML escaping, or is not ASCII (the page quotes the path) x methods
+    for tail in ('', 'a/b', '<i>&"\'', '\xe9', '\xe9\u20ac/\u00fc\u4e2d', 'x' * 70 + '\xdf'):
+        for method in ('GET', 'HEAD', 'POST'):
+            for route, errh in ((('h', [('bh', 'X-A')], ('ret', ('t', 'hi'))), []),
+                                (('h', [('bh', 'X-B')], ('ret', ('it', closable(), True, [('b', b'a'), ('b', b'b')], 'cls'))), []),
+                                (('h', [], ('ex',)), [(500, ('ex',))]),
+                                (('h', [], ('ret', ('un', 'int'))), [(500, ('ex',))]),
+                                (('nf',), [(404, ('ex',))]),
+                                (('na', ['PUT', 'DELETE']), [(405, ('ex',))])):
+                if route[0] == 'na' and method == 'HEAD':
+                    continue
+                for before, after in hooks[:2]:
+                    cases.append((dict(before=list(before), after=list(after), errh=list(errh)),
+                                  dict(id=1, method=method, fw=False, path_ok=True, tail=tail, query='', route=route)))
     return cases
 
 
@@ -435,9 +451,13 @@ class C03(Check):
                         + (' by the catch-all branch of wsgi()' if exc else '')))
         # (d) framework Content-Length (programs of the oracle's domain never set one themselves)
         cls = [v for k, v in headers if k.lower() == 'content-length']
-        if cls and req['method'] != 'HEAD' and not BODYLESS(code) and not exc:
+        # the last-resort page of wsgi() (exc_info handed to start_response) is a body-carrying 500 whose header
+        # list is built by the framework alone: a Content-Length there is the framework's as well
+        if cls and req['method'] != 'HEAD' and not BODYLESS(code):
             if len(cls) != 1 or not cls[0].isdigit() or int(cls[0]) != len(obs['data']):
-                bad.append(('content-length', f'Content-Length {cls} but {len(obs["data"])} bytes returned'))
+                site = 'content-length:catchall-page' if exc else 'content-length'
+                bad.append((site, f'Content-Length {cls} but {len(obs["data"])} bytes returned'
+                            + (' by the catch-all branch of wsgi()' if exc else '')))
         # (f) close discipline
         closes = [e for e in log if e[0] == 'c']
         for c in set(closes):
